@@ -470,19 +470,60 @@ def validate (c : Cfg) (x : Ctx) (v : PyVal) : R :=
   | .dict => classSelectorValidate c x v
   | .color => colorValue c v ;; colorNamed c v
 
-/-! ### Assignment routes  -- src: Parameter.__set__ (validate, then store) -/
+/-! ### Assignment routes  -- src: Parameter.__set__ (validate, then store)
+
+What differs between the routes before `Parameter.__set__` is reached, and where
+the value lands:
+* `Cls(p=v)` -- `_setup_params` does `setattr` on the not yet initialised instance;
+  `obj.p = v` and `obj.param.update(p=v)` (`_update` does `setattr` per key) pass
+  the value unchanged; all three store in the instance's value dictionary;
+* `Cls.p = v` passes the value unchanged and stores in the Parameter's `default`;
+* deserialisation first maps the JSON-decoded value through the type's
+  `deserialize` classmethod, then goes through the constructor.
+The `__set__` body itself (validate before store) is one piece of code shared by
+all of them; its internal order is modelled where it matters (C02). -/
 
 inductive Route where
-  | ctorKw        -- `Cls(p=v)`            (`_setup_params` → setattr on the uninitialised instance)
+  | ctorKw        -- `Cls(p=v)`
   | instAttr      -- `obj.p = v`
   | clsAttr       -- `Cls.p = v`
-  | update        -- `obj.param.update(p=v)` (`_update` → setattr)
-  | deser         -- `Cls(**Cls.param.deserialize_parameters(json))`: `v` is the deserialised value
+  | update        -- `obj.param.update(p=v)`
+  | deser         -- `Cls(**Cls.param.deserialize_parameters(json))`: `v` is the JSON-decoded value
   deriving DecidableEq, Repr
 
+/-- where a successful assignment puts the value -/
+inductive Target where
+  | instanceValue | classDefault
+  deriving DecidableEq, Repr
+
+def Route.target : Route → Target
+  | .clsAttr => .classDefault
+  | _ => .instanceValue
+
+/-- `P.deserialize(value)` on a JSON-decoded value; `none` = not modelled here
+(the date types parse strings with `strptime`: C15) or the call raises.
+-- src: Parameter.deserialize (identity), Tuple.deserialize (`None` for `None` / `'null'`,
+else `tuple(value)`); Range and XYCoordinates inherit Tuple's -/
+def deserialize (t : PType) (j : PyVal) : Option PyVal :=
+  match t with
+  | .tuple | .numericTuple | .xy | .range =>
+    (match j with
+     | .none => some .none
+     | .str "null" => some .none
+     | _ => j.iter?.map PyVal.tuple)
+  | .date | .calendarDate | .dateRange | .calendarDateRange => none
+  | _ => some j
+
+/-- the value that reaches `Parameter.__set__` -/
+def routeValue (r : Route) (c : Cfg) (v : PyVal) : Option PyVal :=
+  match r with
+  | .deser => deserialize c.ptype v
+  | _ => some v
+
 inductive Outcome where
-  | stored (w : PyVal)
+  | stored (t : Target) (w : PyVal)
   | rejected (e : ErrKind)
+  | notModelled                     -- deserialisation outside the model (or raising before `__set__`)
 
 /-- what ends up in the value store -- src: Event.__set__ resets to False after the set -/
 def storedValue (c : Cfg) (v : PyVal) : PyVal :=
@@ -490,17 +531,19 @@ def storedValue (c : Cfg) (v : PyVal) : PyVal :=
   | .event => .num .bool (.fin 0)
   | _ => v
 
-/-- Every route funnels into `Parameter.__set__`, which validates before it
-stores; non-constant, non-readonly parameters without references (the guards
-are C14 / C02 / C08). -/
-def assign (_r : Route) (c : Cfg) (x : Ctx) (v : PyVal) : Outcome :=
-  match validate c x v with
-  | .ok _ => .stored (storedValue c v)
-  | .error e => .rejected e
+/-- an assignment through route `r`; non-constant, non-readonly parameters without
+references (the guards are C14 / C02 / C08) -/
+def assign (r : Route) (c : Cfg) (x : Ctx) (v : PyVal) : Outcome :=
+  match routeValue r c v with
+  | none => .notModelled
+  | some w =>
+    match validate c x w with
+    | .ok _ => .stored r.target (storedValue c w)
+    | .error e => .rejected e
 
 def Outcome.accepted : Outcome → Bool
-  | .stored _ => true
-  | .rejected _ => false
+  | .stored _ _ => true
+  | _ => false
 
 /-! ### Constructors -/
 
